@@ -84,8 +84,18 @@ fn hostile_name() -> BoxedStrategy<(String, Vec<u8>)> {
             })
             .boxed()
     };
+    // many multi-byte characters: the byte length and the character count fall on different sides of 255
+    let utf8_long = (0usize..4, 60usize..262, "[a-z.]{0,6}")
+        .prop_map(|(k, n, tail)| {
+            let ch = ["é", "中", "😀", "ü"][k];
+            let mut s = ch.repeat(n);
+            s.push_str(&tail);
+            s.into_bytes()
+        })
+        .boxed();
     prop_oneof![
         3 => with("ldh", ldh),
+        3 => with("utf8-long", utf8_long),
         1 => with("empty", Just(vec![]).boxed()),
         1 => with("short", "[a-z]{1,3}".prop_map(|s| s.into_bytes()).boxed()),
         2 => with("space", inject(b" ")),
@@ -518,7 +528,7 @@ pub fn checks() -> Vec<Box<dyn SubCheck>> {
     vec![Box::new(vcore::PropCheck {
         property: "C03",
         name: "codec-composition",
-        rule: "destination D = (host bytes from 30 classes: LDH, empty, 1-3 chars, SP, CRLF+header, LF, CR, NUL, TAB, ':', '[', ']', '@', C0, DEL, non-ASCII UTF-8, invalid UTF-8, IPv4/IPv6/bracketed-IPv6 look-alikes, lengths 250..260 and 300, random bytes; or an IPv4/IPv6 address) x port (boundary-biased) x inbound codec {CONNECT, SOCKS4/4a, SOCKS5, SOCKS5-UDP, RPFM, direct} x outbound writer {CONNECT tcp/udp, SOCKS4, SOCKS5, SOCKS5+auth, SOCKS5-UDP, RPFM header/stream/fragment buffer}; reference-encode -> real reader -> real writer -> reference-parse; oracle: refusal or exactly one well-formed message naming canon(D), no residue, no extra header, Host == request-target; non-trivial = hostile host class or an unrepresentable family",
+        rule: "destination D = (host bytes from 31 classes: LDH, empty, 1-3 chars, SP, CRLF+header, LF, CR, NUL, TAB, ':', '[', ']', '@', C0, DEL, non-ASCII UTF-8, 60-261 multi-byte characters (120-1050 bytes), invalid UTF-8, IPv4/IPv6/bracketed-IPv6 look-alikes, lengths 250..260 and 300, random bytes; or an IPv4/IPv6 address) x port (boundary-biased) x inbound codec {CONNECT, SOCKS4/4a, SOCKS5, SOCKS5-UDP, RPFM, direct} x outbound writer {CONNECT tcp/udp, SOCKS4, SOCKS5, SOCKS5+auth, SOCKS5-UDP, RPFM header/stream/fragment buffer}; reference-encode -> real reader -> real writer -> reference-parse; oracle: refusal or exactly one well-formed message naming canon(D), no residue, no extra header, Host == request-target; non-trivial = hostile host class or an unrepresentable family",
         quick: 60_000,
         thorough: 600_000,
         max_shrink: 800,
